@@ -12,6 +12,8 @@ import (
 	"fmt"
 	"io"
 	"math/rand"
+	"runtime"
+	"runtime/debug"
 	"sort"
 	"strings"
 	"time"
@@ -19,6 +21,7 @@ import (
 	netty "github.com/go-netty/go-netty"
 	"github.com/go-netty/go-netty/codec/format"
 	"github.com/go-netty/go-netty/codec/frame"
+	"github.com/go-netty/go-netty/utils/pool/pbytes"
 
 	"verifharness/mock"
 	"verifharness/sched"
@@ -66,6 +69,7 @@ type ChanCase struct {
 	Seed     int64        `json:"seed"`
 	MaxSteps int          `json:"max_steps"`
 	NoTrace  bool         `json:"no_trace"`
+	Scribble bool         `json:"scribble"` // C10: after every step another pool user obtains and overwrites pooled buffers of every size class
 	Swallow  bool         `json:"swallow"` // the probe's exception handler consumes every exception
 	Codec    bool         `json:"codec"` // pipeline = text codec + delimiter codec ("\x00"); wire parsed by delimiter
 	Props    []string     `json:"props"` // which oracles to apply (empty = all)
@@ -523,6 +527,12 @@ func (w *chanWorld) parse() {
 		id := stream[w.parsedOff]
 		ck := w.byID[id]
 		if ck == nil {
+			if id == 0xEE {
+				w.fail("C10", "modified/caller-reuse", fmt.Sprintf("the transport received bytes (offset %d) that the caller wrote into its buffer after the write call had returned", w.parsedOff))
+			}
+			if id == 0xDD {
+				w.fail("C10", "modified/pool-user", fmt.Sprintf("the transport received bytes (offset %d) that another user of the buffer pool wrote into a recycled buffer", w.parsedOff))
+			}
 			w.fail("C01", "garbage", fmt.Sprintf("transport byte %d at offset %d starts no known payload", id, w.parsedOff))
 			w.parsedOff = len(stream)
 			return
@@ -536,6 +546,18 @@ func (w *chanWorld) parse() {
 		}
 		if string(stream[w.parsedOff:end]) != string(ck.data) {
 			w.fail("C01", "modified", fmt.Sprintf("payload %s.%d (%s) modified on the transport", op.w, op.idx, op.spec.Kind))
+			how := "differ from what the caller's buffer held when the call was made"
+			for _, b := range stream[w.parsedOff:end] {
+				if b == 0xDD {
+					how = "were overwritten by another user of the buffer pool before they were sent"
+					break
+				}
+				if b == 0xEE {
+					how = "changed when the caller reused its buffer after the call had returned"
+					break
+				}
+			}
+			w.fail("C10", "modified/"+op.spec.Kind, fmt.Sprintf("the bytes transmitted for %s.%d (%s, %d bytes) %s", op.w, op.idx, op.spec.Kind, len(ck.data), how))
 		}
 		if ck.inPos >= 0 {
 			w.fail("C01", "duplicate", fmt.Sprintf("payload %s.%d transmitted twice", op.w, op.idx))
@@ -762,6 +784,11 @@ func (w *chanWorld) wants(prop string) bool {
 
 func runChanCase(c *ChanCase) *ChanResult {
 	res := &ChanResult{ID: c.ID, Actions: map[string]int{}, Final: map[string]string{}}
+	if c.Scribble {
+		// one P, no GC: a buffer put into sync.Pool is what the next Get of that class returns
+		runtime.GOMAXPROCS(1)
+		defer debug.SetGCPercent(debug.SetGCPercent(-1))
+	}
 	s := sched.New()
 	w := &chanWorld{
 		c: c, s: s, ops: map[string][]*opRun{}, byID: map[byte]*chunkRun{}, rets: map[string][]string{},
@@ -884,6 +911,10 @@ func runChanCase(c *ChanCase) *ChanResult {
 				kind, proc = "pcancel", ""
 				break
 			}
+			if e[0] == "pooluser" {
+				kind, proc = "pooluser", ""
+				break
+			}
 			if contains(atGate, e[1]) {
 				kind, proc = e[0], e[1]
 				break
@@ -908,7 +939,10 @@ func runChanCase(c *ChanCase) *ChanResult {
 			}
 		}
 		ev := Event{P: proc}
-		if kind == "pcancel" {
+		if kind == "pooluser" {
+			ev.A = "env.pooluser"
+			poolScribble()
+		} else if kind == "pcancel" {
 			ev.A = "env.pcancel"
 			w.parentDone = true
 			w.parentCancel()
@@ -1074,6 +1108,9 @@ func runChanCase(c *ChanCase) *ChanResult {
 		}
 		if c.Serve == "full" && w.serveRet == -1 && s.Loc("V") == "done" {
 			w.serveRet = w.step
+		}
+		if c.Scribble {
+			poolScribble()
 		}
 		w.oracleStep(w.faultsUsed == 0)
 		if !c.NoTrace {
@@ -1349,6 +1386,22 @@ func isCloser(c *ChanCase, name string) bool {
 		}
 	}
 	return false
+}
+
+// poolScribble plays the other users of the shared buffer pool: it obtains a buffer of every size
+// class, overwrites it completely and puts it back
+func poolScribble() {
+	for sz := 1024; sz <= 131072; sz *= 2 {
+		for k := 0; k < 3; k++ {
+			b := pbytes.Get(sz)
+			full := (*b)[:cap(*b)]
+			for i := range full {
+				full[i] = 0xDD
+			}
+			e := (*b)[:0]
+			pbytes.Put(&e)
+		}
+	}
 }
 
 func contains(xs []string, x string) bool {
